@@ -2613,15 +2613,15 @@ class SlicedMemoryIO(object):
             Data read from SpiNNaker as a bytestring.
         """
         # If n_bytes is negative then calculate it as the number of bytes left
+        n_available = self._bytes_available()
         if n_bytes < 0:
-            n_bytes = self._end_address - self.address
+            n_bytes = n_available
 
         # Determine how far to read, then read nothing beyond that point.
-        if self.address + n_bytes > self._end_address:
-            new_n_bytes = self._end_address - self.address
+        if n_bytes > n_available:
             warnings.warn("read truncated from {} to {} bytes".format(
-                n_bytes, new_n_bytes), TruncationWarning, stacklevel=3)
-            n_bytes = new_n_bytes
+                n_bytes, n_available), TruncationWarning, stacklevel=3)
+            n_bytes = n_available
 
         if n_bytes <= 0:
             return b''
@@ -2655,9 +2655,8 @@ class SlicedMemoryIO(object):
         int
             Number of bytes written.
         """
-        if self.address + len(bytes) > self._end_address:
-            n_bytes = self._end_address - self.address
-
+        n_bytes = self._bytes_available()
+        if len(bytes) > n_bytes:
             warnings.warn("write truncated from {} to {} bytes".format(
                 len(bytes), n_bytes), TruncationWarning, stacklevel=3)
             bytes = bytes[:n_bytes]
@@ -2669,6 +2668,15 @@ class SlicedMemoryIO(object):
         self._parent._perform_write(self.address, bytes)
         self._offset += len(bytes)
         return len(bytes)
+
+    def _bytes_available(self):
+        """Number of bytes which may be read or written at the current
+        position: the bytes left before the end of the memory region, none if
+        the position is outside the region (e.g. after seeking to a negative
+        offset or beyond the end)."""
+        if self._offset < 0:
+            return 0
+        return max(0, self._end_address - self.address)
 
     @_if_not_closed
     def flush(self):
